@@ -8,9 +8,13 @@ import tarfile
 import numpy as np
 from scipy import sparse
 
-from sknetwork.data import parse as sk_parse
-from sknetwork.data import load as sk_load
+import importlib
+
 from sknetwork.data.base import Dataset
+
+# `sknetwork.data` re-exports functions named like its submodules (load, ...): fetch the modules themselves
+sk_parse = importlib.import_module('sknetwork.data.parse')
+sk_load = importlib.import_module('sknetwork.data.load')
 
 
 # ---------------------------------------------------------------------------------------------
